@@ -248,6 +248,10 @@ def check_nack(ctx, rng, fe):
                 ctx.event('nack-header-without-reason-element')
             else:
                 env = rc.make_lp(fragment=iw, nack_reason=reason, headers=hs, pit_token=rng.choice([None, None, b'', b'\x01\x02\x03\x04', gen.rand_bytes(rng, 8)]))
+            if i % 11 == 5:
+                # the wall clock is set forwards by two hours while the Interests are pending (awaited: their waits run on the loop's clock)
+                S.step_wall(7200)
+                ctx.event('nack-after-a-forward-step-of-the-wall-clock')
             snap = T.snapshot()
             expect_keys = [k for k, t in T.pend.items() if not t.done() and knames.get(k) == names[target]]
             w = {'frontend': fe, 'target': target, 'reason': reason, 'headers': [hex(t) for t, v in hs]}
@@ -411,6 +415,65 @@ def check_pit_token(ctx, rng):
 
     S = vtime.run(main)
     finish(ctx, S, res, 'pit-token')
+    # --- the handler defers its reply; the application loses its connection and connects again (same NDNApp object) inside the
+    # Interest's lifetime; the reply then goes out on the new connection exactly as the rule says: token -> envelope with it, none -> bare
+    res2 = {'viol': []}
+
+    async def main2(S):
+        for rnd in range(ctx.n(6, 200)):
+            face = RecFace()
+            the_app = appv2.NDNApp(face=face)
+            got = {}
+            the_app.attach_handler([C(b't')], lambda n, p, reply, c: got.__setitem__(bytes(n[-1]), (reply, c)))
+            main_task = asyncio.ensure_future(the_app.main_loop())
+            await asyncio.sleep(0)
+            batch = []
+            for j in range(3):
+                token = [None, b'\x01\x02\x03\x04', gen.rand_bytes(rng, rng.choice([1, 8, 32]))][(j + rnd) % 3]
+                nm = [C(b't'), rc.comp(8, b'r%d-%d' % (rnd, j))]
+                iw = bytes(make_interest(nm, InterestParam(nonce=j + 1, lifetime=60000)))
+                await face.deliver(iw if token is None else rc.make_lp(fragment=iw, pit_token=token))
+                for _ in range(3):
+                    await asyncio.sleep(0)
+                batch.append((nm, token))
+            the_app.shutdown()
+            await asyncio.wait_for(main_task, 5)
+            main_task = asyncio.ensure_future(the_app.main_loop())       # connected again
+            await asyncio.sleep(0.01)
+            ctx.event('token-reply-after-reconnect')
+            for nm, token in batch[::-1]:
+                if bytes(nm[-1]) not in got:
+                    continue
+                reply, c = got[bytes(nm[-1])]
+                data = bytes(make_data(nm, MetaInfo(), b'late but in time', DigestSha256Signer()))
+                n0 = len(face.sent)
+                try:
+                    ret = reply(data)
+                except Exception as e:   # noqa
+                    res2['viol'].append((f'reply-raises:{type(e).__name__}:after-reconnect', f'{e!r}', {'token': token}))
+                    continue
+                sent = [b for t, b in face.sent[n0:]]
+                ctx.case(('token-after-reconnect', None if token is None else len(token)))
+                if not ret and not sent:
+                    ctx.event('observation:reply-after-reconnect-refused')      # (refusing is truthful; a transmitted reply follows the rule)
+                    continue
+                w = {'token': token, 'after': 'shutdown + second main_loop on the same application', 'sent': sent[:2]}
+                if len(sent) != 1:
+                    res2['viol'].append(('token-reply-count:after-reconnect', f'{len(sent)} packets for one reply', w))
+                elif token is None:
+                    if sent[0] != data:
+                        res2['viol'].append(('tokenless-reply-not-bare:after-reconnect', 'reply to an Interest without PIT token was not sent bare', w))
+                else:
+                    try:
+                        lp = rc.strict_lp(sent[0])
+                        if lp.get('pit_token') != token or lp.get('fragment') != data:
+                            res2['viol'].append((f'token-reply-wrong-token:after-reconnect', f'envelope carries token {lp.get("pit_token")!r}, expected {token!r}', w))
+                    except (rc.Reject, KeyError):
+                        res2['viol'].append(('token-reply-not-an-envelope:after-reconnect', 'reply to an Interest with PIT token is not an envelope carrying that token', w))
+            the_app.shutdown()
+            await asyncio.wait_for(main_task, 5)
+    S2 = vtime.run(main2)
+    finish(ctx, S2, res2, 'pit-token-after-reconnect')
 
 
 def run(ctx):
@@ -423,6 +486,8 @@ def run(ctx):
     for k in ('twin-delivery-with-effect', 'nack-delivered', 'token-reply', 'fragmented-envelope', 'nack-with-cancel-in-same-turn', 'token-round-debug-logging', 'token-second-reply'):
         ctx.need_event(k)
     ctx.need_event('token-interests-of-one-name-outstanding-together')
+    ctx.need_event('nack-after-a-forward-step-of-the-wall-clock')
+    ctx.need_event('token-reply-after-reconnect')
     ctx.need_class('reply-size->=2048')
     ctx.need_class('token-interest-signed')
     ctx.need_class('token-interest-parameterised')
